@@ -871,6 +871,11 @@ fn payload_shapes(ctx: &Ctx, prop: &'static str) -> Tally {
     let mut long = vec![0u8, 0, 1, 0x2c];
     long.extend((0..300).map(|i| 0x30 + (i % 0x40) as u8));
     shapes.push(long);
+    // a length-prefixed unit whose header byte takes every value (every H.264 / H.265 unit type,
+    // with and without the forbidden bit): content must not influence the stored flags or bytes
+    for b in 0..=255u8 {
+        shapes.push(vec![0, 0, 0, 2, b, 0x01]);
+    }
     let cfgs: Vec<FCfg> = configs(false).into_iter().filter(|c| c.start_dts == 0).collect();
     let items: Vec<(FCfg, usize)> = cfgs.iter().flat_map(|c| (0..shapes.len()).map(move |i| (c.clone(), i))).collect();
     par_items(&items, ctx.seed, |idx, (cfg, si), t| {
@@ -897,8 +902,51 @@ fn payload_shapes(ctx: &Ctx, prop: &'static str) -> Tally {
     })
 }
 
+/// Decode-time magnitudes: every ordered pair of consecutive decode times over a boundary set of
+/// the whole u64 range (a flush in between, so no 32-bit duration is involved): the second write
+/// is accepted iff it is not lower, whatever the distance.
+fn magnitudes(ctx: &Ctx, prop: &'static str) -> Tally {
+    const B: [u64; 11] = [0, 1, 1 << 31, 1 << 32, (1 << 63) - 1, 1 << 63, (1 << 63) + 10, u64::MAX - (1 << 31), u64::MAX - 1, u64::MAX, 9000];
+    let cfgs: Vec<FCfg> = configs(false).into_iter().filter(|c| c.start_dts == 0).collect();
+    let mut items = vec![];
+    for c in &cfgs {
+        for &a in &B {
+            for &b in &B {
+                items.push((c.clone(), a, b));
+            }
+        }
+    }
+    par_items(&items, ctx.seed, |idx, (cfg, a, b), t| {
+        let h = vec![
+            FOp::Write { pts: *a, dts: *a, data: oracle::model::hex(&body(1, 4)), sync: true },
+            FOp::Flush,
+            FOp::Write { pts: *b, dts: *b, data: oracle::model::hex(&body(2, 5)), sync: true },
+            FOp::Flush,
+        ];
+        t.evaluations += 1;
+        t.states += 1;
+        t.transitions += h.len() as u64;
+        match guarded(|| replay_history(cfg, &h)) {
+            Ok(Ok((_, _, issues))) => {
+                for (p, sig, detail) in issues {
+                    if p == prop {
+                        t.violation(&format!("{p}/magnitude/{sig}"), (6_800_000 + idx as u64, 0), || format!("{:?} decode times {a} then {b}: {detail}", cfg.codec), || json!({"engine": "E5", "cfg": cfg, "history": h, "brief": brief(&h)}));
+                    }
+                }
+            }
+            Ok(Err(_)) => {}
+            Err(p) => t.violation(&format!("{prop}/magnitude/panic"), (6_800_000 + idx as u64, 0), || format!("decode times {a} then {b}: {p}"), || json!({"engine": "E5", "cfg": cfg, "history": h})),
+        }
+    })
+}
+
 pub fn check(ctx: &Ctx, prop: &'static str) -> i32 {
     let (mut tally, mut meta) = collect(ctx, prop);
+    if prop == "C10" {
+        let t5 = magnitudes(ctx, prop);
+        tally.count("magnitude_histories", t5.evaluations);
+        tally.merge(t5);
+    }
     let t4 = payload_shapes(ctx, prop);
     tally.count("payload_shape_histories", t4.evaluations);
     tally.merge(t4);
@@ -908,7 +956,7 @@ pub fn check(ctx: &Ctx, prop: &'static str) -> i32 {
     let t2 = scaling(ctx, prop);
     tally.count("scaling_histories", t2.evaluations);
     tally.merge(t2);
-    meta.rule = format!("{} Scaling family: fragments of every sample count 1..={} x 3 decode-step patterns x 2 flush cadences x 4 codecs (one 66 KB sample in some) plus fragments of 66 000 samples, replayed with the same model. Look-alike family: decode time (5 byte alignments), decode delta, composition offset or payload spelling each of 9 box codes x 4 codecs. Payload shapes: 9 payloads that look like Annex B / ADTS / padding (a length prefix spelling a start code among them) x every configuration.", meta.rule, if ctx.thorough { 200 } else { 80 });
+    meta.rule = format!("{} Scaling family: fragments of every sample count 1..={} x 3 decode-step patterns x 2 flush cadences x 4 codecs (one 66 KB sample in some) plus fragments of 66 000 samples, replayed with the same model. Look-alike family: decode time (5 byte alignments), decode delta, composition offset or payload spelling each of 9 box codes x 4 codecs. Decode-time magnitudes (C10): every ordered pair over 11 boundary values of the u64 range with a flush in between. Payload shapes: 9 payloads that look like Annex B / ADTS / padding (a length prefix spelling a start code among them) and a length-prefixed unit with every header byte value x every configuration.", meta.rule, if ctx.thorough { 200 } else { 80 });
     finish(ctx, &tally, meta)
 }
 
